@@ -1,7 +1,7 @@
 import torch
 import inspect
 from typing import Callable, List, Tuple, Union, Sequence
-from xitorch._utils.attr import set_attr, del_attr
+from xitorch._utils.attr import get_attr, set_attr, del_attr
 from xitorch._utils.unique import Uniquifier
 from xitorch._core.editable_module import EditableModule
 from contextlib import contextmanager
@@ -105,6 +105,12 @@ class TorchNNPureFunction(PureFunction):
         super().__init__(method)
 
     def _get_all_obj_params_init(self) -> List:
+        if hasattr(self, "names"):
+            # called again (e.g. by a sibling function) possibly while other tensors
+            # are substituted for the parameters: return what is installed now
+            # under the names found at construction and keep those names
+            return [get_attr(self.obj, name) for name in self.names]
+
         # get the tensors in the torch.nn.Module to be used as params
         named_params = list(self.obj.named_parameters())
         if len(named_params) == 0:
